@@ -5,7 +5,7 @@ PY = "/venv/bin/python"
 BASE = json.load(open("/root/.vp/BASELINE.json"))["cmd"] if os.path.exists("/root/.vp/BASELINE.json") else "cd /repo && /venv/bin/python -m pytest -ra -q -p no:cacheprovider --timeout=900 --continue-on-collection-errors --junitxml=<file>"
 
 CHECKS = {
- "C01": ("exploration", "docprops", "bounded-exhaustive universe enumeration + scaling families, oracle: termination within a counted work budget",
+ "C01": ("exploration", "docprops", "bounded-exhaustive universe enumeration (coverage-distilled stratum + seeded sample in the quick tier) + scaling families + Hypothesis structured documents, oracle: termination within a counted work budget and a CPU-time backstop",
    "Generated-input search: every rank (thorough) or a seeded sample (quick) of finite document universes built from the Markdown-significant vocabulary, specification limits and single-edit neighbours of the suite's own documents is parsed under a deterministic work counter; failures are matched against exact committed rank sets so only new failing inputs alarm.",
    "Holds only on the explored universes/sizes; non-termination observable only as exceeding the work budget; sys.monitoring call counts trusted."),
  "C02": ("exploration", "docprops", "bounded-exhaustive universe enumeration, round-trip oracle (regenerated Markdown == source)",
@@ -20,26 +20,26 @@ CHECKS = {
  "C05": ("exploration", "docprops", "bounded-exhaustive universe enumeration, oracle: source text at (line, column) is the element's opening text",
    "Validity predicate over every positioned token: range, block order, and anchor text per token kind; the classes and the exact (line, column) of every failing token form the document's signature, so any further wrong position in an already-failing document is still reported.",
    "Anchors only for token kinds the statement names; tabs accept raw or expanded column."),
- "C06": ("exploration", "scanprops", "generated documents x documented rule configurations, oracle: independent two-sided reference of each rule's documented trigger over an independent parser's block view",
-   "Differential against reference implementations of 18 rules written from the rule documentation (MUST / MUST-NOT line sets, silent cases not judged), evaluated on the block structure reported by the independent parser, only on documents where C03 holds.",
+ "C06": ("exploration", "scanprops", "generated documents x documented rule configurations, oracle: independent two-sided reference (MUST / MUST-NOT line sets) of each rule's documented trigger over an independent parser's block and inline view",
+   "Differential against reference implementations of 41 of the 46 rules (50 documented configuration variants) written from the rule documentation (MUST / MUST-NOT line sets, silent cases not judged), evaluated on the block structure reported by the independent parser, only on documents where C03 holds.",
    "References encode a conservative reading of informal documentation; rules without a crisp documented trigger are not judged."),
  "C07": ("exploration", "scanprops", "generated documents x rule configurations through main(), oracle: report validity predicate + determinism",
    "Every sampled document is scanned twice under default / all-rules / two single-rule configurations through PyMarkdownLint.main; plugin failures, out-of-range, duplicate, unsorted or non-deterministic reports fail.",
    "Sub-lattices of the universes; single-rule configurations sampled by source hash."),
  "C08": ("exploration", "scanprops", "metamorphic: fingerprint(render(d)) == fingerprint(render(fix(d))) through an independent renderer",
-   "Fix is run through main() under the default set, single fix-capable rules and pairs; a content fingerprint of the independent renderer's HTML, reduced only by the freedoms documented for the rules that reported, must be unchanged.",
+   "Fix is run through main() under the default set, single fix-capable rules and pairs, and (second pass) under documented non-default configuration values of one fix-capable rule; a content fingerprint of the independent renderer's HTML, reduced only by the freedoms documented for the rules that reported, must be unchanged.",
    "Trusted base markdown-it-py; freedoms listed in oracles/fingerprint.py; precondition C03 on the original."),
  "C09": ("exploration", "scanprops", "metamorphic: fix(fix(d)) == fix(d), second run silent, no fixable failure left",
-   "Idempotence and completeness of fix under default / single / pair configurations chosen among the rules that fire on the document.",
+   "Idempotence and completeness of fix under default / single / pair configurations chosen among the rules that fire on the document, and (second pass) under documented non-default configuration values of one fix-capable rule.",
    "Fix runs that end in an application error are C15's; pairs sampled by hash."),
  "C10": ("exploration", "scanprops", "file-system snapshot oracle over generated file sets, both return-code schemes",
-   "Hash snapshots of a private working directory and TMPDIR before/after fix, scan, list and stdin runs over 3-file sets: changed <=> announced <=> exit code, untouched when nothing fixable, nothing created or left.",
+   "Hash snapshots of a private working directory and TMPDIR before/after fix, scan, list and stdin runs (also with input that cannot be encoded) over 3-file sets: changed <=> announced <=> exit code, untouched when nothing fixable, nothing created or left.",
    "File sets are 3 files with hash-chosen companions."),
  "C11": ("exploration", "scanprops", "metamorphic: pragma insertion at generated line boundaries, oracle: shifted tokens / shifted failures minus exactly the named (line, rule)",
    "A pragma line (both prefixes, ids in any case / aliases, next-line and num-lines, stacked pairs, malformed forms) is inserted into generated documents; token stream and failures must equal the shifted originals minus exactly what is named.",
    "Pragma lines kept short and clean so no line rule fires on them; insertion only before existing lines."),
  "C12": ("exploration", "scanprops", "algebraic law: failures(S) == multiset-union of failures({r}), all 46 rules alone + default/all/default-minus-k",
-   "Every rule is scanned alone on each sampled document and the union law is checked for the default set, all rules and default minus hashed rules.",
+   "Every rule is scanned alone on each sampled document and the union law is checked for the default set, all rules and default minus hashed rules, on a pragma-bearing variant and on a front-matter variant with the extension enabled.",
    "md999 excluded; documents whose scan crashes are C07's."),
  "C13": ("exploration", "histories", "history generation: every adjacency of a document pool in one invocation + Hypothesis rule-based state machine on one API object, oracle: per-file result equals the alone result",
    "Sequences A B1 A B2 ... over a pool of rule resource documents and state probes (scan and fix), and a stateful Hypothesis machine over a long-lived PyMarkdownApi, compared with fresh single-file results.",
